@@ -8,10 +8,39 @@ namespace Pg.C09
 open T
 open Pg.C08 (Atom Key)
 
+theorem freshItems_filter (p : Key × T → Bool) (items : List (Key × T)) (h : FreshItems items) :
+    FreshItems (items.filter p) := by
+  rw [freshItems_iff] at h ⊢
+  intro x hx; exact h x (List.mem_filter.1 hx).1
+
+mutual
+  /-- The change handlers of the notified nodes (memos reset, placeholders dropped) keep the tree fresh. -/
+  theorem purgeSet_fresh : (paths : List Path) → (t : T) → Fresh t → Fresh (purgeSet paths t)
+    | _, .leaf a, h => by simpa [purgeSet] using h
+    | paths, .node m kd items, h => by
+      simp only [Fresh] at h
+      simp only [purgeSet]
+      split
+      · simp only [Fresh]; exact h
+      · have hi := purgeItems_fresh paths items h.2
+        simp only [Fresh]
+        refine ⟨⟨Or.inl trivial, Or.inl trivial⟩, ?_⟩
+        split
+        · exact freshItems_reindex _ (freshItems_filter _ _ hi)
+        · exact hi
+  theorem purgeItems_fresh : (paths : List Path) → (items : List (Key × T)) → FreshItems items →
+      FreshItems (purgeItems paths items)
+    | _, [], _ => by simp [purgeItems, FreshItems]
+    | paths, (k, t) :: rest, h => by
+      simp only [FreshItems] at h
+      simp only [purgeItems, FreshItems]
+      exact ⟨purgeSet_fresh (tailsFor k paths) t h.1, purgeItems_fresh paths rest h.2⟩
+end
+
 theorem finish_fresh' (r' : T) (ups : List (Update × Path)) (n : Bool) (h : Fresh r') :
     Fresh (finish r' ups n).tree := by
   unfold finish; split
-  · exact resetAll_fresh ups r' h
+  · exact purgeSet_fresh _ _ (resetAll_fresh ups r' h)
   · exact h
 
 theorem finish_events_off (r' : T) (ups : List (Update × Path)) : (finish r' ups false).events = [] := by
@@ -495,5 +524,31 @@ theorem specNotifs_owned (r' : T) (recv : Path) (ents : List (Key × Option T ×
     | nil => exact absurd rfl hne
     | cons x rest => simp
   · simp [h]
+
+end Pg.C09
+
+namespace Pg.C09
+open T
+open Pg.C08 (Atom Key)
+
+theorem mem_reindex {x : Key × T} (xs : List (Key × T)) (h : x ∈ reindex xs) : ∃ y ∈ xs, y.2 = x.2 := by
+  simp only [reindex, List.mem_map] at h
+  obtain ⟨⟨i, t⟩, hz, rfl⟩ := h
+  have := (List.of_mem_zip hz).2
+  simp only [List.mem_map] at this
+  obtain ⟨y, hy, rfl⟩ := this
+  exact ⟨y, hy, rfl⟩
+
+/-- A List whose change handler ran holds no MISSING_VALUE placeholder afterwards. -/
+theorem purgeSet_list_clean (paths : List Path) (hne : paths.isEmpty = false) (m : Meta) (items : List (Key × T)) :
+    ∃ m' items', purgeSet paths (.node m .list items) = .node m' .list items' ∧
+      ∀ kv ∈ items', isMissingLeaf kv.2 = false := by
+  refine ⟨{ m with cache := none, miss := none },
+    reindex ((purgeItems paths items).filter fun kv => !isMissingLeaf kv.2), by simp [purgeSet, hne], ?_⟩
+  intro kv hkv
+  obtain ⟨y, hy, hyx⟩ := mem_reindex _ hkv
+  have := (List.mem_filter.1 hy).2
+  rw [← hyx]
+  simpa using this
 
 end Pg.C09
